@@ -21,7 +21,9 @@ from spv.harness import Harness, result
 
 META = {
     "level": "model_checking",
-    "claim": "END TO END: the real describe-packets body on the real framer over a symbolic file of 1, 2 and 11 (thorough also 3, 10, 12) packets whose data "
+    "claim": "PARSE END TO END (BV back end): the real `spp parse` body loads a real template definition from a file and runs the real generators over a SYMBOLIC packet file "
+             "(template T4, files of two and three packets; thorough more): what reaches the pretty-printer without an index is exactly the list of packets Spec-XTCE decodes, in file order and with "
+             "their values, and with a SYMBOLIC index i in [0, n+1] exactly the i-th of them or the out-of-range message.  DESCRIBE END TO END: the real describe-packets body on the real framer over a symbolic file of 1, 2 and 11 (thorough also 3, 10, 12) packets whose data "
              "lengths are symbolic 1..65536: the rows are exactly the packets in order (first five, ellipsis, last five beyond ten), each row carrying "
              "that packet's own length, sequence count and APID.  With the framer stubbed: for every number of packets n = 0..13 (thorough 0..24) the real describe-packets row selection adds, in order, every packet exactly once "
              "when n <= 10 and otherwise the first five, one ellipsis row and the last five; for every n and a symbolic index i in [-1, n+1] the real "
@@ -31,7 +33,7 @@ META = {
     "bounds": {"quick": {"n": "0..13", "i": "symbolic in [-1, n+1]"}, "thorough": {"n": "0..24", "i": "symbolic in [-1, n+1]"}},
     "stubs": ["cli.ccsds_generator / cli.XtcePacketDefinition: yield n distinct tokens", "rich Table / console.print / pretty.pprint: recorders",
               "open(): a real empty temporary file"],
-    "outside_claim": ["rendering by rich", "click argument parsing", "negative packet indices", "files with more than N packets"],
+    "outside_claim": ["packet files whose packets the definition cannot decode without an error that Spec-XTCE allows or demands (decoder exceptions propagate through `spp parse` by the library's error model; C14 proves such packets are never delivered as clean)", "rendering by rich", "click argument parsing", "negative packet indices", "files with more than N packets"],
     "assumptions": ["the framer terminates and yields each packet once (C02, C10)"],
 }
 
@@ -239,6 +241,85 @@ class DescribeE2E(Harness):
         return result(f"P{P}", obl, observe={"cls": "ran"}, inputs={"P": P, **{f"L{i}": lia.LInt(Ls[i]) for i in range(P)}})
 
 
+def _cli_parse(cli, open_fn, def_path, index, def_cls=None):
+    """the real parse command body with the terminal output recorded; -> (recorder, exception name)"""
+    from pathlib import Path
+    rec = Recorder()
+    saved = {k: getattr(cli, k) for k in ("console", "pretty", "XtcePacketDefinition")}
+    had_open = "open" in cli.__dict__
+    cli.console, cli.pretty = FakeConsole(rec), FakePretty(rec)
+    if def_cls is not None:
+        cli.XtcePacketDefinition = def_cls
+    cli.open = open_fn
+    try:
+        try:
+            cli.parse.callback(Path("symbolic.bin"), Path(def_path), index, 20, 40, 0)
+            exc = None
+        except Exception as e:    # noqa: BLE001
+            exc = type(e).__name__
+    finally:
+        for k, v in saved.items():
+            setattr(cli, k, v)
+        if not had_open:
+            del cli.open
+    return rec, exc
+
+
+from checks import e2e as _e2e      # noqa: E402
+
+
+class ParseCLI(_e2e.E2E):
+    """`spp parse FILE XTCE [--packet i]` END TO END on the BV back end: the real command body loads a real template definition from a file, runs
+    the real definition-level generator over a SYMBOLIC packet file, and what it hands to the pretty-printer is compared with Spec-XTCE: without
+    an index the list of all decodable packets in file order, with a SYMBOLIC index i exactly the i-th of them, or the out-of-range message"""
+    kind = "parse-cli"
+
+    def _run(self, stream, index):
+        from space_packet_parser import cli
+        lib = self.lib
+
+        class Def:
+            @classmethod
+            def from_xtce(cls, path, **kw):
+                return bv.symbolize_definition(lib.definitions.XtcePacketDefinition.from_xtce(path, **kw))
+        return _cli_parse(cli, lambda path, mode="rb": bv.SymFileBV(stream), self.xml_path, index, Def)
+
+    def collect(self, ctx, stream, parse_bad, yield_unrec, n):
+        rec, exc = self._run(stream, None)
+        lst = rec.pp[0] if rec.pp and isinstance(rec.pp[0], list) else []
+        self._end = "stop" if exc is None and rec.pp else "exc:" + str(exc)
+        self._plain_end = None
+        if self._end != "stop":
+            # the command failed: whether an exception is allowed for this file is decided on the definition's own generator (same code, same
+            # exception), which also delivers the packets before the failing one; the command must not fail where the generator does not
+            del ctx.warnings[:]
+            ys, self._plain_end = super().collect(ctx, stream, parse_bad, yield_unrec, n)
+            return ys, self._plain_end
+        return list(lst), self._end
+
+    def extra(self, ctx, stream, pk, yields, index_of):
+        if self._end != "stop":
+            # a file the definition cannot decode (Spec-XTCE decides whether the exception is allowed): the index form fails the same way
+            return [("spp parse fails only on a file on which the definition's generator fails", self._plain_end != "stop")], {"idx": 0}, {"index": None, "cli_end": self._end}
+        n = len(yields)
+        i = z3.BitVec("idx", bv.W)
+        ctx.assume(z3.And(i >= 0, i <= n + 1))
+        rec, exc = self._run(stream, bv.SymInt(i, nb=4, nonneg=True))
+        shown = rec.pp[0] if rec.pp else None
+        oor = any("out of range" in str(x) for x in rec.printed)
+        obl = [("parse --packet i: no exception escapes", exc is None)]
+        k = None
+        if shown is not None and not isinstance(shown, list):
+            k = index_of(shown)
+            pos = next((j for j, y in enumerate(yields) if index_of(y) == k), None) if k is not None else None
+            obl.append(("parse --packet i shows the i-th packet of the listing", (i == pos) if pos is not None else False))
+        elif oor:
+            obl.append(("out-of-range message only for an index beyond the listing", i >= n))
+        elif exc is None:
+            obl.append(("parse --packet i shows a packet or the out-of-range message", False))
+        return obl, {"idx": bv.SymInt(i)}, {"index": {"shown": k, "oor": oor, "exc": exc}}
+
+
 class Twin(Parse):
     def run(self, ctx):
         r = super().run(ctx)
@@ -251,6 +332,22 @@ def make(job):
         from spv import lia
         lia.install()
         h = DescribeE2E(job)
+        return h
+    if job["h"] == "parse-cli":
+        from checks import templates
+        from spv import specxtce
+        p = job["params"]
+        xml, _, _ = templates.get(p["template"])
+        lib = bv.install(max(128, 8 * max(p["lens"]) + 64))
+        h = ParseCLI(job)
+        h.lib = lib
+        fd, h.xml_path = tempfile.mkstemp(prefix="spv_c19_", suffix=".xml")
+        os.write(fd, xml)
+        os.close(fd)
+        import atexit
+        atexit.register(lambda q=h.xml_path: os.path.exists(q) and os.unlink(q))
+        h.spec = specxtce.Spec(xml)
+        h.defn = bv.symbolize_definition(lib.definitions.XtcePacketDefinition.from_xtce(io.BytesIO(xml)))
         return h
     lib = bv.install(128)
     h = {"describe": Describe, "parse": Parse, "twin": Twin}[job["h"]](job)
@@ -267,6 +364,8 @@ def jobs(tier):
     N = 13 if tier == "quick" else 24
     return [{"name": "describe", "h": "describe", "params": {"N": N}, "split": 8, "chunk": 20, "must_reach": ["n0", "n10", "n11"]},
             {"name": "parse", "h": "parse", "params": {"N": N}, "split": 16, "chunk": 30, "must_reach": ["shown", "oor"]}] + \
+        [{"name": f"parse-cli-{t}-{'-'.join(map(str, lens))}", "h": "parse-cli", "params": {"template": t, "lens": lens, "flagsets": [1]}, "split": 16, "chunk": 25,
+          "max_paths": 200000, "must_reach": []} for t, lens in ((("T4", [9, 10]), ("T4", [9, 9, 9])) if tier == "quick" else (("T4", [9, 10, 9, 10]), ("T4", [10, 9, 9]), ("T1", [19, 19, 18]), ("T6", [12, 12])))] + \
         [{"name": f"describe-e2e-P{P}", "h": "describe-e2e", "params": {"P": P}, "split": 8, "chunk": 20, "must_reach": [f"P{P}"]} for P in ((1, 2, 11) if tier == "quick" else (1, 2, 3, 10, 11, 12))]
 
 
@@ -331,6 +430,8 @@ def _e2e_blobs(i):
 
 
 def concrete(req):
+    if req["kind"] == "parse-cli":
+        return _parse_cli_concrete(req)
     i = req["input"]
     if req["kind"] == "describe-e2e":
         rows, exc = real_rows(_e2e_blobs(i))
@@ -345,10 +446,62 @@ def concrete(req):
     return {"cls": "ran", "shown": shown, "oor": "out of range" in out, "exc": exc}
 
 
+def _parse_cli_concrete(req):
+    from checks import templates
+    from space_packet_parser import cli
+    i = req["input"]
+    xml, _, _ = templates.get(i["template"])
+    stream = bytes.fromhex(i["stream"]["hex"])
+    with tempfile.TemporaryDirectory(prefix="spv_c19_") as d:
+        xf = os.path.join(d, "x.xml")
+        open(xf, "wb").write(xml)
+
+        def runner(_xml, _stream):
+            rec, exc = _cli_parse(cli, lambda path, mode="rb": io.BytesIO(_stream), xf, None)
+            lst = rec.pp[0] if rec.pp and isinstance(rec.pp[0], list) else []
+            return list(lst), ("stop" if exc is None and rec.pp else "exc:" + str(exc))
+        got = _e2e.run_real(xml, stream, True, False, len(i["lens"]), runner=runner)
+        if got["end"] != "stop":
+            cli_end = got["end"]
+            got = _e2e.run_real(xml, stream, True, False, len(i["lens"]))
+            got.update(index=None, cli_end=cli_end)
+            return got
+        rec, exc = _cli_parse(cli, lambda path, mode="rb": io.BytesIO(stream), xf, i["idx"])
+    shown = rec.pp[0] if rec.pp else None
+    k = None
+    if shown is not None and not isinstance(shown, list):
+        raw, o, j = bytes(shown.raw_data), 0, 0
+        while o + 6 <= len(stream):
+            n = 7 + int.from_bytes(stream[o + 4:o + 6], "big")
+            if stream[o:o + n] == raw and k is None:
+                k = j
+            o += n
+            j += 1
+    got["index"] = {"shown": k, "oor": any("out of range" in str(x) for x in rec.printed), "exc": exc}
+    return got
+
+
 def judge(req, got):
     if got.get("cls") in ("WORKER-ERROR", "WORKER-DIED", "TIMEOUT"):
         return "error", str(got)[:300]
     i = req["input"]
+    if req["kind"] == "parse-cli":
+        verdict, why = _e2e.judge(req, got)
+        if verdict != "not-reproduced":
+            return verdict, "spp parse (no index): " + why
+        if got.get("cli_end"):
+            if got["end"] == "stop":
+                return "reproduced", f"spp parse on template {i['template']} file {i['stream']['hex']} ends in {got['cli_end']} although the definition's generator decodes the file"
+            return "not-reproduced", "the definition cannot decode this file (allowed by Spec-XTCE): no statement about the command"
+        ys, ix, k = got["yields"], got["index"], i["idx"]
+        head = f"spp parse --packet {k} on template {i['template']} file {i['stream']['hex']} (listing shows input packets {[y['i'] for y in ys]})"
+        if ix["exc"]:
+            return "reproduced", f"{head}: ends in {ix['exc']}"
+        if k < len(ys):
+            # byte-identical packets cannot be told apart in the replay: accept the first input packet with the shown bytes
+            return ("not-reproduced", "shown") if ix["shown"] is not None and ix["shown"] <= ys[k]["i"] and not ix["oor"] else \
+                ("reproduced", f"{head}: shown input packet {ix['shown']}, out-of-range message {ix['oor']}")
+        return ("not-reproduced", "message") if ix["oor"] else ("reproduced", f"{head}: no out-of-range message (shown {ix['shown']})")
     if req["kind"] == "describe-e2e":
         want = [header_tuple(b) if k != "..." else "..." for k, b in zip(expected_rows(i["P"]), [None] * 99)] if False else None
         blobs = _e2e_blobs(i)
@@ -378,6 +531,8 @@ def finding_key(f, req, got):
         return "C19:describe-packets-duplicate-rows" if 1 <= i.get("n", 0) <= 9 else f"C19:describe:n={i.get('n')}"
     if req.get("kind") == "describe-e2e":
         return "C19:describe-e2e:" + f["label"].split(":")[0][:40]
+    if req.get("kind") == "parse-cli":
+        return "C19:parse-cli:" + re.sub(r"pkt\d+", "pkt", f["label"])[:50]
     if i.get("i") is not None and i.get("i") == i.get("n"):
         return "C19:parse-index-equal-to-count-IndexError"
     return f"C19:parse:{f['label'][:40]}"
